@@ -25,6 +25,9 @@ pub enum Damage {
     /// Flip `bit` of the byte at `pos` (pos % len).
     Flip { pos: u64, bit: u8 },
     Garbage,
+    /// Truncate a TOML file right before its k-th table header (k modulo the number of
+    /// headers, never the first): the remainder is still valid TOML with entries missing.
+    TruncateAtEntry(u32),
     /// Overwrite with the bytes of another file under `.build` (index into the sorted list).
     SwapWith(usize),
 }
@@ -114,6 +117,22 @@ fn apply_damage(file: &str, damage: &Damage, all: &[(String, std::path::PathBuf)
             std::fs::write(path, d).is_ok()
         }
         Damage::Garbage => std::fs::write(path, b"\x00\xffgarbage\n[[[").is_ok(),
+        Damage::TruncateAtEntry(k) => {
+            let Ok(text) = std::str::from_utf8(&data) else { return false };
+            let mut offs = vec![];
+            let mut pos = 0;
+            for line in text.split_inclusive('\n') {
+                if line.starts_with('[') {
+                    offs.push(pos);
+                }
+                pos += line.len();
+            }
+            if offs.len() < 2 {
+                return false;
+            }
+            let cut = offs[1 + (*k as usize) % (offs.len() - 1)];
+            std::fs::write(path, &data[..cut]).is_ok()
+        }
         Damage::SwapWith(i) => {
             let other = &all[*i % all.len()].1;
             match std::fs::read(other) {
@@ -294,6 +313,7 @@ fn key_of(sc: &C05Scenario, v: &Violation, fired: &Option<String>) -> String {
                 Damage::Truncate(_) => "truncate",
                 Damage::Flip { .. } => "bitflip",
                 Damage::Garbage => "garbage",
+                Damage::TruncateAtEntry(_) => "truncate-at-entry",
                 Damage::SwapWith(_) => "swap",
             }
         ),
@@ -365,6 +385,11 @@ fn cases_for(
     for f in files {
         must.push((f.clone(), Damage::Delete));
         must.push((f.clone(), Damage::Garbage));
+        if f.ends_with(".toml") {
+            for k in 0..3u32 {
+                must.push((f.clone(), Damage::TruncateAtEntry(k)));
+            }
+        }
         for t in [0, 1, 7, 8, u64::MAX / 2, u64::MAX - 1] {
             dmg.push((f.clone(), Damage::Truncate(t)));
         }
